@@ -6,6 +6,7 @@
 
 mod drv_bits;
 mod drv_build;
+mod drv_decode;
 mod msgen;
 mod special;
 mod special_msm;
@@ -32,6 +33,8 @@ fn main() {
         ("record", "bits") => drv_bits::rec_bits(&a, &mut out),
         ("record", "build") => drv_build::rec_build(&a, &mut out),
         ("record", "history") => drv_build::rec_history(&a, &mut out),
+        ("record", "decode") => drv_decode::rec_decode(&a, &mut out),
+        ("record", "classify") => drv_decode::rec_classify(&a, &mut out),
         _ => {
             eprintln!("usage: rtcm_conf record|replay <family> key=value...");
             std::process::exit(2);
